@@ -665,10 +665,84 @@ func runC04(c *Ctx) error {
 		fmt.Printf("replay (20 re-executions of the scenario): %d failures\n", len(c.Rep.Failures))
 		return nil
 	}
+	c04Directed(c)
 	n := c.N(300, 6000)
 	for i := 0; i < n && !c.Rep.ShouldStop(); i++ {
 		cs := c04Case{Seed: c.Rng.U64(), Slots: 1 + c.Rng.Intn(4), Runners: 1 + c.Rng.Intn(4), Bumps: 1 + c.Rng.Intn(12), Strobe: c.Rng.Bool(), Stop: c.Rng.Chance(0.4)}
 		c04One(c, m, cs)
 	}
 	return nil
+}
+
+// c04Directed (finding C04-0, notes/hunt/C04 find1): a rerunner whose computation ends its goroutine in the middle of
+// an invalidation's walk over the dependants must not keep the rerunners after it from being re-run.
+func c04Directed(c *Ctx) {
+	rep := c.Rep
+	reactive.VerifHook = nil
+	oldDelay := reactive.WriteThenReadDelay
+	reactive.WriteThenReadDelay = 0
+	defer func() { reactive.WriteThenReadDelay = oldDelay }()
+	const siblings = 12
+	for trial := 0; trial < 3; trial++ {
+		cs := map[string]interface{}{"directed": "one resource, twelve healthy rerunners and one whose second run calls runtime.Goexit; Strobe", "trial": trial}
+		res := reactive.NewResource()
+		var aRuns int32
+		a := reactive.NewRerunner(context.Background(), func(ctx context.Context) (interface{}, error) {
+			reactive.AddDependency(ctx, res, nil)
+			if atomic.AddInt32(&aRuns, 1) == 2 {
+				runtime.Goexit() // what t.FailNow does
+			}
+			return nil, nil
+		}, 0, false)
+		var runs [siblings]int32
+		var rs []*reactive.Rerunner
+		for i := 0; i < siblings; i++ {
+			i := i
+			rs = append(rs, reactive.NewRerunner(context.Background(), func(ctx context.Context) (interface{}, error) {
+				reactive.AddDependency(ctx, res, nil)
+				atomic.AddInt32(&runs[i], 1)
+				return nil, nil
+			}, 0, true))
+		}
+		atLeast := func(n int32) bool {
+			for i := range runs {
+				if atomic.LoadInt32(&runs[i]) < n {
+					return false
+				}
+			}
+			return true
+		}
+		wait := func(cond func() bool) bool {
+			p := newPatience(3 * time.Second)
+			for !cond() {
+				if p.expired() {
+					return false
+				}
+				time.Sleep(time.Millisecond)
+			}
+			return true
+		}
+		if !wait(func() bool { return atomic.LoadInt32(&aRuns) >= 1 && atLeast(1) }) {
+			rep.Fail("harness_error", nil, cs, map[string]interface{}{"error": "the first runs did not happen"})
+			return
+		}
+		res.Strobe()
+		ok := wait(func() bool { return atLeast(2) })
+		a.Stop()
+		for _, r := range rs {
+			r.Stop()
+		}
+		if !ok {
+			stranded := 0
+			for i := range runs {
+				if atomic.LoadInt32(&runs[i]) < 2 {
+					stranded++
+				}
+			}
+			rep.Fail("impl_ne_spec", nil, cs, map[string]interface{}{"what": fmt.Sprintf("the resource was strobed, but %d of %d healthy rerunners that depend on it were never run again (a sibling's computation ended the goroutine that walks the dependants)", stranded, siblings)})
+			return
+		}
+		rep.Count("directed:goexit_sibling")
+		rep.Eval(fmt.Sprintf("directed|goexit-sibling|%d", trial), true, cs)
+	}
 }
